@@ -3,8 +3,8 @@
 cd "$(dirname "$0")/.."
 base=$1; shift
 for id in "$@"; do
-  MUT_BASE=$base tools/mutant.py confirm $id $id
-  tools/mutant.py tests $id
-  tools/mutant.py check $id ${id:0:3}
+  MUT_BASE=$base python3 tools/mutant.py confirm $id $id
+  python3 tools/mutant.py tests $id
+  python3 tools/mutant.py check $id ${id:0:3}
 done
 echo round-done
